@@ -54,8 +54,8 @@ Proof.
   set (w0 := {| w_leases := known; w_given := repeat false (length known); w_out := [] |}).
   destruct (exact_loop_spec now hs w0) as (e1 & W1 & L1 & M1).
   destruct (exact_loop now hs w0) as [w1 sat1]. cbn [fst snd] in *.
-  destruct (empty_loop_spec now hs sat1 w1) as (e2 & W2).
-  destruct (empty_loop now hs sat1 w1) as [w2 sat2]. cbn [fst] in *.
+  destruct (empty_loop_spec now hs sat1 (count_empty hs sat1) w1) as (e2 & W2).
+  destruct (empty_loop now hs sat1 (count_empty hs sat1) w1) as [w2 sat2]. cbn [fst] in *.
   pose proof (wstep_trans _ _ _ _ _ W1 W2) as (K2 & _ & O2 & F2). cbn [w_leases w_out app] in K2, O2, F2.
   pose proof (alloc_loop_spec now L P hs sat2 (ps_alloc st) w2 false V (default_hints_wf _ Wf)) as A.
   destruct (alloc_loop now hs sat2 (ps_alloc st) w2 false) as [[[a' w3] new']|e|]; try contradiction.
@@ -121,9 +121,9 @@ Qed.
 
 Lemma empty_inner_all now h : match h with Some (_, hm) => ones_of hm = 0%Z | None => True end ->
   forall fuel li w, (li + fuel = length (w_leases w))%nat -> (forall j, (li <= j)%nat -> nth j (w_given w) false = false) ->
-  map key (w_out (fst (empty_inner now h w li fuel))) = map key (w_out w) ++ skipn li (map key (w_leases w)) /\
-  map key (w_leases (fst (empty_inner now h w li fuel))) = map key (w_leases w) /\
-  (snd (empty_inner now h w li fuel) = true <-> fuel <> 0%nat).
+  map key (w_out (fst (empty_inner now h false w li fuel))) = map key (w_out w) ++ skipn li (map key (w_leases w)) /\
+  map key (w_leases (fst (empty_inner now h false w li fuel))) = map key (w_leases w) /\
+  (snd (empty_inner now h false w li fuel) = true <-> fuel <> 0%nat).
 Proof.
   intros Hh. induction fuel as [|f IH]; intros li w Hlen Hg; cbn [empty_inner].
   - cbn [fst snd]. rewrite skipn_all2 by (rewrite map_length; lia). rewrite app_nil_r. split; [reflexivity|]. split; [reflexivity|]. split; [discriminate|congruence].
@@ -139,7 +139,7 @@ Proof.
     assert (Hg' : forall j, (S li <= j)%nat -> nth j (w_given (give now w li)) false = false).
     { intros j Hj. rewrite G4 by lia. apply Hg. lia. }
     destruct (IH (S li) (give now w li) Hlen' Hg') as (I1 & I2 & I3).
-    destruct (empty_inner now h (give now w li) (S li) f) as [w2 hit2]. cbn [fst snd] in *.
+    destruct (empty_inner now h false (give now w li) (S li) f) as [w2 hit2]. cbn [fst snd] in *.
     split; [|split; [congruence|split; [discriminate|reflexivity]]].
     rewrite I1, G3, G1, map_app. cbn [map]. rewrite key_extend, <- app_assoc. cbn [app]. f_equal.
     symmetry. apply skipn_nth_error. rewrite nth_error_map, E. reflexivity.
@@ -158,7 +158,7 @@ Definition one_iapd' (now : Z) (st : pstate) (client : bytes) (hs : list hint) :
   let known := precs_get client (ps_recs st) in
   let w0 := {| w_leases := known; w_given := repeat false (length known); w_out := [] |} in
   let '(w1, sat1) := exact_loop now hs w0 in
-  let '(w2, sat2) := empty_loop now hs sat1 w1 in
+  let '(w2, sat2) := empty_loop now hs sat1 (count_empty hs sat1) w1 in
   match alloc_loop now hs sat2 (ps_alloc st) w2 false with
   | Panic => Panic
   | Err e => Err e
@@ -185,7 +185,10 @@ Proof.
   assert (Hno : forall l, In l (w_leases w0) -> same_prefix h0 l = false).
   { intros l Hl. destruct (Hin c l Hl) as (x & Ex & _). destruct Hh0 as [-> | ->]; cbn [same_prefix]; [|reflexivity].
     rewrite ip_equal_nil16; [reflexivity|]. rewrite Ex. apply blk_ip_length. }
-  cbn [exact_loop]. rewrite (exact_inner_nohit now h0 _ 0%nat w0 Hno). cbn [exact_loop empty_loop orb].
+  cbn [exact_loop]. rewrite (exact_inner_nohit now h0 _ 0%nat w0 Hno). cbn [exact_loop].
+  assert (Hcnt : count_empty [h0] [false] = 1%nat).
+  { unfold count_empty. cbn [combine filter fst snd orb]. destruct Hh0 as [-> | ->]; reflexivity. }
+  rewrite Hcnt. cbn [empty_loop orb pred Nat.ltb Nat.leb].
   assert (Hempty : empty_hint h0 = true) by (destruct Hh0 as [-> | ->]; reflexivity).
   rewrite Hempty. cbn [negb].
   assert (Hfilter : match h0 with Some (_, hm) => ones_of hm = 0%Z | None => True end).
@@ -193,7 +196,7 @@ Proof.
   destruct (empty_inner_all now h0 Hfilter (length (w_leases w0)) 0%nat w0 eq_refl) as (O1 & K1 & H1).
   { intros j _. cbn [w0 w_given]. clear. revert j. induction (length known) as [|n IH]; intros j; [destruct j; reflexivity|].
     destruct j; cbn [repeat nth]; [reflexivity|apply IH]. }
-  destruct (empty_inner now h0 w0 0 (length (w_leases w0))) as [w1 hit] eqn:E1. cbn [fst snd] in *.
+  destruct (empty_inner now h0 false w0 0 (length (w_leases w0))) as [w1 hit] eqn:E1. cbn [fst snd] in *.
   assert (hit = true) as ->.
   { apply H1. cbn [w0 w_leases]. destruct known; [contradiction|discriminate]. }
   cbn [empty_loop alloc_loop]. eexists. eexists. split; [reflexivity|]. cbn [ps_alloc ps_recs].
